@@ -236,7 +236,9 @@ UpdMsg(m0, e) ==
             ELSE IF cmd \in Uncacheable \/ ~m1.rewFlag \/ ~m1.ckpt THEN m1
             ELSE [m1 EXCEPT !.since = Append(@, mid)]
       \* C09: after the checkpoint that consumes a deferred pause no further message may be executed before the pause
-      m3a == ViolIf(m2, m.deferCkpt /\ cmd \notin {"checkpoint", "_start_suspender", "rewindable", "wait_for", "_resume_from_suspender"},
+      \* (an accepted abort/stop/halt overrides the pending pause: the plan's clean-up messages then follow the checkpoint)
+      m3a == ViolIf(m2, m.deferCkpt /\ m.term = {} /\ m.termLate = {}
+                        /\ cmd \notin {"checkpoint", "_start_suspender", "rewindable", "wait_for", "_resume_from_suspender"},
                     "C09:message-after-deferred-checkpoint")
       m3 == ViolIf(m3a, m.failPending /\ cmd = "checkpoint", "C12:status-failure-after-checkpoint")
       \* C11: while a suspension holds the plan only the helper's own messages (pre-plan, wait) may run
@@ -278,7 +280,8 @@ UpdGen(mIn, e) ==
       m4 == IF inp = "send" /\ ExpectedResp(m3.planMsg) # {} /\ val \notin ExpectedResp(m3.planMsg)
             THEN Viol(m3, "C13:response-mismatch:" \o m3.planMsg.cmd) ELSE m3
       \* C14: a duplicate open_run must be rejected at that yield
-      m5 == IF m4.dupOpen THEN ViolIf([m4 EXCEPT !.dupOpen = FALSE], ~(inp = "throw" /\ val = "IMS"), "C14:duplicate-open-accepted") ELSE m4
+      \* (answered with an exception: IllegalMessageSequence, or whatever interrupted the engine before it got to the message)
+      m5 == IF m4.dupOpen THEN ViolIf([m4 EXCEPT !.dupOpen = FALSE], inp # "throw", "C14:duplicate-open-accepted") ELSE m4
       \* C15: colliding reads / checkpoint inside a bundle must be rejected
       m6 == IF m5.planMsg.cmd = "read" /\ m5.planMsg.run \in RunKeys /\ m5.bundle[m5.planMsg.run].collide
             THEN ViolIf([m5 EXCEPT !.bundle[m5.planMsg.run].collide = FALSE], inp # "throw", "C15:colliding-read-accepted") ELSE m5
@@ -335,7 +338,9 @@ UpdState(m, e) ==
       m1c == IF n \in {"aborting", "stopping", "halting"} /\ lastq.kind \in {"abort", "stop", "halt"} /\ lastq.out = ""
              THEN (IF lastq.pc = "tail" THEN [m1b EXCEPT !.termLate = @ \cup {lastq.kind}] ELSE [m1b EXCEPT !.term = @ \cup {lastq.kind}])
              ELSE m1b
-      m2 == [m1c EXCEPT !.pausedNow = (n = "paused"), !.st = n, !.curRun = "none", !.curCmd = ""]
+      \* (C04: an accepted abort/stop/halt pre-empts a replay that was due: nothing more is expected to come back)
+      m1d == IF n \in {"aborting", "stopping", "halting"} THEN [m1c EXCEPT !.replaying = FALSE, !.expect = <<>>] ELSE m1c
+      m2 == [m1d EXCEPT !.pausedNow = (n = "paused"), !.st = n, !.curRun = "none", !.curCmd = ""]
       \* C09: the pause that follows a deferred request: nothing to replay
       m3 == IF n = "paused" /\ m.deferCkpt THEN ViolIf([m2 EXCEPT !.deferPending = FALSE, !.deferCkpt = FALSE], m.since # <<>>, "C09:replay-after-deferred-pause")
             ELSE IF n = "pausing" /\ ~m.deferCkpt THEN [m2 EXCEPT !.deferPending = FALSE] ELSE m2
@@ -441,8 +446,12 @@ UpdReq(m, e, s) ==
 
 UpdReqRet(m, e, s2) ==
   LET kind == e[2] out == e[3]
-      last == m.reqs[Len(m.reqs)]
-      m1 == [m EXCEPT !.reqs[Len(m.reqs)].out = out]
+      \* the request this completion belongs to: the latest one of that kind still without an outcome (requests made back to
+      \* back complete in any order)
+      cand == {i \in 1..Len(m.reqs) : m.reqs[i].kind = kind /\ m.reqs[i].out = ""}
+      ix == IF cand = {} THEN Len(m.reqs) ELSE CHOOSE i \in cand : \A j \in cand : j <= i
+      last == m.reqs[ix]
+      m1 == [m EXCEPT !.reqs[ix].out = out]
       acc == out = "ok"
       m1x == ViolIf(m1, kind = "sus_remove" /\ ~acc, "C31:remove-failed")
       m2 == IF acc /\ kind \in {"abort", "stop", "halt"} /\ last.st # "idle"
